@@ -263,6 +263,10 @@ func (c *Conn) Write(p []byte) (int, error) {
 			c.failNext = false
 			return 0, &net.OpError{Op: "write", Net: "netsim", Err: ErrInjectedWrite}
 		}
+		if !c.writeDeadline.IsZero() && !time.Now().Before(c.writeDeadline) {
+			// like a real socket: a write attempted after its deadline fails, whether or not the peer reads
+			return 0, &net.OpError{Op: "write", Net: "netsim", Err: ErrTimeout}
+		}
 		if !c.stalled {
 			break
 		}
